@@ -335,7 +335,7 @@ def run_group(g, tier, seed, use_cache=True):
     # validate all shards of all runs (one pool per trace specification)
     alldir = gdir + '/all'
     v = []
-    st = {'shards': 0, 'events': 0, 'tlc_wall_s': 0, 'drift': 0}
+    st = {'shards': 0, 'events': 0, 'tlc_wall_s': 0, 'drift': 0, 'judged': {}}
     byspec = {}
     for i, r in enumerate(runs):
         byspec.setdefault(r.get('tspec', 'Trace_Tree'), []).append(i)
@@ -348,7 +348,11 @@ def run_group(g, tier, seed, use_cache=True):
         v1, st1 = validate_traces(d, spec=tspec)
         v += v1
         for k in st:
-            st[k] = round(st[k] + st1[k], 1)
+            if k == 'judged':
+                for kk, n in st1.get('judged', {}).items():
+                    st['judged'][tspec + '.' + kk] = st['judged'].get(tspec + '.' + kk, 0) + n
+            else:
+                st[k] = round(st[k] + st1[k], 1)
     for x in v:
         x['group'] = g
         x['run'] = int(os.path.basename(x['trace'])[1:3])
@@ -445,6 +449,22 @@ def sig_key(prop, v, conjs):
                        s.get('where'), s.get('lower_kids'), s.get('got'), s.get('want'), s.get('f'), sorted(map(str, s.get('diff', [])))])
 
 
+REQUIRED_JUDGED = {
+    'C01': ['Trace_Tree.spec_ok', 'Trace_Tree.spec_fail', 'Trace_Tree.pinned_class'],
+    'C02': ['Trace_Tree.agree'],
+    'C03': ['Trace_Tree.spec_ok', 'Trace_Tree.inv'],
+    'C05': ['Trace_Tree.call', 'Trace_Tree.init'],
+    'C07': ['Trace_Tree.twin', 'Trace_Tree.view'],
+    'C08': ['Trace_Tree.lower', 'Trace_Tree.fault'],
+    'C09': ['Trace_Tree.union', 'Trace_Tree.lower', 'Trace_Tree.level_b'],
+    'C10': ['Trace_Tree.union', 'Trace_Tree.lower'],
+    'C12': ['Trace_Tree.err_labelled', 'Trace_Tree.fault_err'],
+    'C18': ['Trace_Tree.truth'],
+    'C19': ['Trace_Tree.settime_ok'],
+    'C20': ['Trace_Tree.fault', 'Trace_Tree.fault_err', 'Trace_Tree.observer_fault'],
+}
+
+
 def decide(prop, spec, results, tier, seed, t0):
     known = load_known()
     relevant = {}
@@ -476,6 +496,14 @@ def decide(prop, spec, results, tier, seed, t0):
             path = write_replay(prop, nviol, v)
             print('VIOLATION property=%s replay=%s' % (prop, path))
             print('  conjuncts=%s signature=%s occurrences=%d' % (v['conjs'], json.dumps(v.get('sig')), len(vs)))
+    # vacuity guard: how often TLC actually applied each part of the contract (counted by the trace specification)
+    judged = {}
+    for r in results:
+        for k, n in r['stats'].get('judged', {}).items():
+            judged[k] = judged.get(k, 0) + n
+    missing = [k for k in REQUIRED_JUDGED.get(prop, []) if judged.get(k, 0) == 0]
+    if missing:
+        raise ToolError('vacuous run for %s: TLC never applied %s' % (prop, missing))
     mc_states = sum(m['states'] for r in results for m in r['mc'].values())
     mc_trans = sum(m['transitions'] for r in results for m in r['mc'].values())
     events = sum(r['stats']['events'] for r in results)
@@ -492,6 +520,7 @@ def decide(prop, spec, results, tier, seed, t0):
            'model_checking': {k: {kk: m.get(kk) for kk in ('module', 'states', 'transitions', 'action_coverage', 'cached')} for r in results for k, m in r['mc'].items()},
            'known_findings_seen': sorted(printed_known), 'other_properties_seen': others,
            'level_b_drift_records': sum(r['stats'].get('drift', 0) for r in results),
+           'judged_by_tlc': judged,
            'distinct_violation_signatures': nviol}
     if prop in ('C01', 'C03'):
         try:
